@@ -48,7 +48,7 @@ def snap_diff(a, b):
 
 
 def exec_summary(o):
-    return sorted((e['node'], R.canon(e['kwargs'])) for e in o.bodies)
+    return sorted(((e['node'], R.canon(e['kwargs'])) for e in o.bodies), key=repr)
 
 
 class HistoryRunner:
